@@ -582,7 +582,7 @@ impl Prop for C15 {
         out.push("6 dom - - r4=ok.1,a50,r6=ok.7,a1,a250,a250".into());
         out.push("4 dom - - r6=ok.7,a50,r4=ok.1,r6=ok.8,a250,a250,a250".into());
         out.push("4 dom ok.1.2 - a250,r6=ok.7,a250,a250,a250".into());
-        out.push("noport v4:1 - - a10".replace("noport v4:1", "4 noport"));
+        out.push("4 noport - - a10".into());
         for p in ["4", "6"] {
             for h in ["v4:5", "v6:9"] {
                 out.push(format!("{p} {h} - - c0=ok"));
@@ -663,7 +663,6 @@ impl Prop for C15 {
     }
 
     fn execute(&mut self, payload: &str) -> Exec {
-        if std::env::var("C15_DEBUG").is_ok() { let _ = std::panic::take_hook(); }
         let toks: Vec<&str> = payload.split(' ').collect();
         let prefer_v6 = toks[0] == "6";
         let host = toks[1];
